@@ -184,15 +184,5 @@ Definition wf (o : hobj) : Prop := h_raw o <> None -> has_raw_field (h_kind o) =
 (* ---- smoke tests with a toy hash (the theorems never look inside H) ---- *)
 Definition toyH (m : bytes) : bytes := [N.of_nat (length m)] ++ m.
 
-Example ex_built_without_id :
-  construct toyH KDirectory (Some [1;2]) (Some None) []
-  = Ok {| h_kind := KDirectory; h_attrs := Some [1;2]; h_raw := None; h_id := [2;1;2] |}.
-Proof. vm_compute. reflexivity. Qed.
 
-Example ex_raw_precedence :
-  construct toyH KRevision (Some [1;2]) (Some (Some [9])) []
-  = Ok {| h_kind := KRevision; h_attrs := Some [1;2]; h_raw := Some [9]; h_id := [1;9] |}.
-Proof. vm_compute. reflexivity. Qed.
 
-Example ex_raw_on_origin_refused : construct toyH KOrigin (Some [1]) (Some None) [] = Err TypeError.
-Proof. vm_compute. reflexivity. Qed.
